@@ -321,9 +321,15 @@ func (x *Exec) doMakeInterface(fr *Frame, in *ssa.MakeInterface, reach *Term, st
 			panic("executor-level pointer converted to interface")
 		}
 		r := v.term()
-		// typed nil pointers in interfaces are not modelled: require non-nil
+		if kindOf(t) == KPtr && !(nonNil[r.S] || len(r.S) > 3 && r.S[:3] == "(+ ") {
+			// a nil pointer in an interface is a non-nil interface value: the typed nil of type t is
+			// the constant typedNil(t); asserting the value back to t yields nil again (unboxAs)
+			r = x.vc.name("iface", mkIte(mkEq(r, mkInt64(0)), x.typedNil(t), r))
+			x.vc.assume(reach, mkEq(app(SInt, "dyntype", r), tid))
+			return scalar(in.Type(), r)
+		}
 		if !(nonNil[r.S] || len(r.S) > 3 && r.S[:3] == "(+ ") {
-			x.vc.oblige("typednil", fmt.Sprintf("typednil#%d", x.vc.ord("typednil")), reach, mkNot(mkEq(r, mkInt64(0))), x.pos(in.Pos()), "pointer converted to interface must be non-nil (typed nil not modelled)")
+			x.vc.oblige("typednil", fmt.Sprintf("typednil#%d", x.vc.ord("typednil")), reach, mkNot(mkEq(r, mkInt64(0))), x.pos(in.Pos()), "map or function value converted to interface must be non-nil (typed nil not modelled)")
 		}
 		x.vc.assume(reach, mkImp(mkNot(mkEq(r, mkInt64(0))), mkEq(app(SInt, "dyntype", r), tid)))
 		return scalar(in.Type(), r)
@@ -368,9 +374,21 @@ func (x *Exec) doMakeInterface(fr *Frame, in *ssa.MakeInterface, reach *Term, st
 	}
 }
 
+// typedNil: the interface value holding a nil pointer of type t (a negative address of its own).
+func (x *Exec) typedNil(t types.Type) *Term {
+	id := x.tids[typeName(t)]
+	if id == 0 {
+		x.tid(t)
+		id = x.tids[typeName(t)]
+	}
+	return mkInt64(int64(-3000000 - id))
+}
+
 func (x *Exec) unboxAs(v *Term, t types.Type, st *State) *Sym {
 	switch kindOf(t) {
-	case KPtr, KMap, KFunc, KIface:
+	case KPtr:
+		return scalar(t, mkIte(mkEq(v, x.typedNil(t)), mkInt64(0), v))
+	case KMap, KFunc, KIface:
 		return scalar(t, v)
 	case KStruct:
 		return x.hp.load(st, &LVal{Root: RStruct, Ref: v, RootT: t, T: t})
